@@ -39,12 +39,34 @@ OOD = {
 }
 
 
+_PLAIN = _Plain()
+_INDEX = _Index(3)
+
+
 def ood_value(name):
+    # singletons: both replicas of a twin run must be handed the same object
     if name == "obj":
-        return _Plain()
+        return _PLAIN
     if name == "index":
-        return _Index(3)
+        return _INDEX
     return OOD[name]
+
+
+import ctypes as _ctypes
+# a PyDLL call re-raises whatever exception is pending when it returns
+_FLUSH = _ctypes.pythonapi.Py_IsInitialized
+
+
+def pending_exception():
+    """name of an exception a C function left set although it returned
+    normally (it surfaces at one of the next C calls), else None"""
+    try:
+        int("1")
+        len(())
+        getattr(pending_exception, "__name__")
+        return None
+    except BaseException as e:
+        return type(e).__name__
 
 
 def K(dom, spec):
@@ -111,9 +133,14 @@ def listing(c, mapping):
 def apply(c, op, dom, impl, kind):
     """run op on container c; normalised outcome"""
     try:
-        return ("ok", _apply(c, op, dom, impl, kind))
+        r = _apply(c, op, dom, impl, kind)
+        # a C function that returns normally but leaves an exception set
+        # makes it surface at one of the next C calls: flush it here, inside
+        # the try, so that it is attributed to this operation
+        _FLUSH()
     except Exception as e:
         return norm_exc(e)
+    return ("ok", r)
 
 
 def _apply(c, op, dom, impl, kind):
